@@ -24,24 +24,22 @@ func ExpandEnvWithDefault(template string, envs map[string]string, defaultValue 
 		return ""
 	}
 
-	result := template
-
-	// Handle special case of {} - use provided default or first available file variable
-	if strings.Contains(result, "{}") {
-		defaultVal := ""
-		if len(defaultValue) > 0 && defaultValue[0] != "" {
-			defaultVal = defaultValue[0]
-		}
-		result = strings.ReplaceAll(result, "{}", defaultVal)
+	defaultVal := ""
+	if len(defaultValue) > 0 {
+		defaultVal = defaultValue[0]
 	}
 
-	// Replace named variables
+	// Substitute all placeholders in one pass over the template: text that
+	// comes from a value is never expanded again, so the result does not
+	// depend on the (random) iteration order of the map.
+	pairs := make([]string, 0, 2*len(envs)+2)
+	pairs = append(pairs, "{}", defaultVal)
 	for key, value := range envs {
 		if key != "" { // Skip empty key used for {} default
-			result = strings.ReplaceAll(result, "{"+key+"}", value)
+			pairs = append(pairs, "{"+key+"}", value)
 		}
 	}
-	return result
+	return strings.NewReplacer(pairs...).Replace(template)
 }
 
 // ExpandEnvSlice expands template variables in a slice of strings
